@@ -223,7 +223,8 @@ def check_interleaving(ctx, rng, cases):
             s = mk(i)
             alone.append([s.update(k / c["per"], [(v, c["data"][v][k]) for v in c["vars"]]) for k in range(c["n"])])
         return outs, alone
-    out = impl.guarded(go)
+    # (objects that influence each other's bounds can make an update loop over a huge window: an outcome, not a harness error)
+    out = impl.guarded(go, 10.0, True)
     rep = {"kind": "interleave", "specs": texts, "formulas": [F.to_proto(c["f"]) for c in cases], "ns": [c["n"] for c in cases],
            "datas": [c["data"] for c in cases], "pers": [c["per"] for c in cases], "order": order, "impl": out}
     if out[0] != "ok":
@@ -336,7 +337,9 @@ def period_units_case(ctx, op, k, c0, num, x, order):
             spec.parse()
             res[u] = [p[1] for p in spec.evaluate({"time": list(range(n)), "x": list(x)})]
         return res
-    out = impl.guarded(go)
+    # an object that reads its bounds in another object's period unit may loop over 10^6 samples: no result within 8 s is an
+    # outcome of this case (the expected evaluation takes milliseconds), not a harness error
+    out = impl.guarded(go, 8.0, True)
     rep = {"kind": "period-units", "spec": text, "op": op, "k": k, "c0": c0, "x": x, "period_number": num, "order": list(order), "impl": out}
     if out[0] != "ok":
         return Violation("evaluate() raised %r: %s (periods %d %s then %d %s)" % (out[1:], text, num, order[0], num, order[1]), rep, stream="pure/period-units")
